@@ -744,3 +744,201 @@ def dump_body(body, out=None):
     if out:
         out.write(txt + "\n")
     return txt
+
+
+# ----------------------------------------------------------------------------------------------
+# symbolic description of values (used by the broker/client path rules)
+# ----------------------------------------------------------------------------------------------
+
+MAP_TYPES = ("std::collections::HashMap", "std::collections::hash_map::HashMap", "std::collections::BTreeMap", "std::collections::HashSet",
+             "aldrin_broker::serial_map::SerialMap", "std::collections::hash_map::OccupiedEntry", "std::collections::hash_map::VacantEntry",
+             "std::collections::hash_map::Entry", "std::collections::BTreeSet")
+
+
+def short_fn(callee):
+    """Type::method of a def path"""
+    if callee is None:
+        return "?"
+    s = re.sub(r"::<[^<>]*(<[^<>]*>[^<>]*)*>", "", callee)
+    parts = s.split("::")
+    return "::".join(parts[-2:]) if len(parts) >= 2 else s
+
+
+def _proj_str(proj):
+    s = ""
+    for e in proj:
+        if e == "*" or e.startswith("@"):
+            continue
+        s += e
+    return s
+
+
+def describe(body, operand, depth=16, _seen=None):
+    """set of symbolic descriptions of where an operand's value comes from, e.g.
+       'self.conns[id]', 'req.serial', 'Object::conn_id(self.objs[self.svc_uuids[req.cookie].0.uuid])',
+       'const 5_usize', 'ObjectCookie::new_v4()'."""
+    if _seen is None:
+        _seen = set()
+    if operand[0] == "k":
+        k = operand[1]
+        if "fn" in k:
+            return {"fn:" + k["fn"]["def"]}
+        return {"const:" + (k.get("def") or k.get("repr") or "?")}
+    if operand[0] not in ("c", "m"):
+        return {"?"}
+    return describe_place(body, operand[1], depth, _seen)
+
+
+def describe_place(body, place, depth, _seen):
+    l = place[0]
+    proj = tuple(place[1:])
+    key = (l, proj)
+    if depth <= 0 or key in _seen:
+        return {"…"}
+    _seen = _seen | {key}
+    if 1 <= l <= body.argc:
+        nm = body.local_name(l) or ("arg%d" % l)
+        if body.kind == "Closure" and l == 1:
+            # closure environment: captured variables by debug name
+            for (un, up) in body.upvars:
+                if tuple(up[1:len(up)]) == tuple(p for p in proj[:len(up) - 1]):
+                    rest = proj[len(up) - 1:]
+                    return {"upvar:" + un + _proj_str(rest)}
+            return {"upvar" + _proj_str(proj)}
+        return {nm + _proj_str(proj)}
+    out = set()
+    dl = body.defs().get(l, [])
+    if not dl:
+        return {"_%d%s" % (l, _proj_str(proj))}
+    for ent in dl:
+        if ent[0] == "stmt":
+            _, bb, idx, s = ent
+            dproj = tuple(s["d"][1:])
+            if dproj and proj and not _overlap(strip_deref(dproj), strip_deref(proj)):
+                continue
+            rest = _rest(dproj, proj) if dproj else proj
+            r = s["r"]
+            k = r["k"]
+            if k == "use" or k == "cast":
+                o = r["o"][0]
+                if o[0] in ("c", "m"):
+                    out |= describe_place(body, list(o[1]) + list(rest), depth - 1, _seen)
+                else:
+                    out |= set(x + _proj_str(rest) for x in describe(body, o, depth - 1, _seen))
+            elif k in ("ref", "rawptr"):
+                out |= describe_place(body, list(r["p"]) + list(rest), depth - 1, _seen)
+            elif k == "agg":
+                fld = first_field(rest)
+                names = r.get("fields") if r.get("ak") == "adt" else None
+                idx_ = None
+                if fld is not None:
+                    if names and fld in names:
+                        idx_ = names.index(fld)
+                    elif fld.isdigit() and int(fld) < len(r["o"]):
+                        idx_ = int(fld)
+                if idx_ is not None and idx_ < len(r["o"]):
+                    o = r["o"][idx_]
+                    aft = after_first_field(rest)
+                    if o[0] in ("c", "m"):
+                        out |= describe_place(body, list(o[1]) + list(aft), depth - 1, _seen)
+                    else:
+                        out |= describe(body, o, depth - 1, _seen)
+                else:
+                    if r.get("ak") == "adt":
+                        inner = []
+                        for o in r["o"][:4]:
+                            ds = sorted(describe(body, o, depth - 2, _seen))
+                            inner.append(ds[0] if ds else "?")
+                        out.add("%s::%s(%s)" % (r["adt"].split("::")[-1], r["variant"], ", ".join(inner)))
+                    elif r.get("ak") == "tuple":
+                        inner = []
+                        for o in r["o"][:4]:
+                            ds = sorted(describe(body, o, depth - 2, _seen))
+                            inner.append(ds[0] if ds else "?")
+                        out.add("(" + ", ".join(inner) + ")")
+                    else:
+                        out.add(r.get("ak", "agg"))
+            elif k == "bin":
+                a = sorted(describe(body, r["o"][0], depth - 2, _seen))
+                b = sorted(describe(body, r["o"][1], depth - 2, _seen))
+                out.add("%s(%s, %s)" % (r["op"], a[0] if a else "?", b[0] if b else "?"))
+            elif k == "un":
+                a = sorted(describe(body, r["o"][0], depth - 2, _seen))
+                out.add("%s(%s)" % (r["op"], a[0] if a else "?"))
+            elif k == "discr":
+                out |= set("discr(" + x + ")" for x in describe_place(body, r["p"], depth - 1, _seen))
+            else:
+                out.add(k)
+        elif ent[0] == "call":
+            c = ent[2]
+            if c.callee is None:
+                out.add("indirect()")
+                continue
+            if is_transparent(c) and c.args:
+                o = c.args[0]
+                if o[0] in ("c", "m"):
+                    out |= describe_place(body, list(o[1]) + [e for e in proj if e.startswith(".") and not e[1:].isdigit()], depth - 1, _seen)
+                else:
+                    out |= describe(body, o, depth - 1, _seen)
+                continue
+            argd = []
+            for o in c.args[:3]:
+                ds = sorted(describe(body, o, depth - 1, _seen))
+                argd.append("|".join(ds[:3]) if ds else "?")
+            d = c.callee
+            nm = c.name
+            is_map = any(d.startswith(t) for t in MAP_TYPES)
+            if is_map and nm in ("get", "get_mut", "get_key_value"):
+                s_ = "%s[%s]" % (argd[0], argd[1] if len(argd) > 1 else "?")
+            elif is_map and nm in ("remove", "entry", "insert", "contains_key", "contains", "remove_entry", "take"):
+                s_ = "%s.%s(%s)" % (argd[0], nm, ", ".join(argd[1:]))
+            elif d.startswith("std::option::Option") or d.startswith("std::result::Result"):
+                s_ = "%s.%s(%s)" % (argd[0] if argd else "?", nm, ", ".join(argd[1:]))
+            else:
+                s_ = "%s(%s)" % (short_fn(d), ", ".join(argd))
+            out.add(s_ + _proj_str(proj))
+        else:
+            out.add("yield")
+    return out or {"?"}
+
+
+Body.describe = lambda self, operand, depth=16: describe(self, operand, depth)
+
+
+def guard_strings(body, bb):
+    """conditions that hold on entry to block bb (edge dominance), as strings:
+         'Some=discr(self.conns[id])'            variant switch
+         'True=PartialEq::ne(Object::conn_id(self.objs[…]), id)'   bool from a call
+         'False=Lt(ConnectionState::version(self.conns[id]), const:…V1_19)'  bool from a comparison"""
+    out = []
+    for (u, g, labels) in body.dominating_guards(bb):
+        if g is None:
+            continue
+        if g["kind"] == "variant":
+            ds = sorted(describe_place(body, g["place"], 16, set()))
+            for lab in labels:
+                for d in ds:
+                    out.append("%s=discr(%s)" % (lab, d))
+        elif g["kind"] == "bool":
+            val = labels[0] if labels else None
+            if g.get("cmp"):
+                op, a, b = g["cmp"]
+                da = sorted(describe(body, a))
+                db = sorted(describe(body, b))
+                for x in da:
+                    for y in db:
+                        out.append("%s=%s(%s, %s)" % (val, op, x, y))
+            elif g.get("call") is not None:
+                c = g["call"]
+                argd = []
+                for o in c.args[:3]:
+                    ds = sorted(describe(body, o))
+                    argd.append("|".join(ds[:3]))
+                out.append("%s=%s(%s)" % (val, short_fn(c.callee), ", ".join(argd)))
+            elif g.get("place") is not None:
+                for d in sorted(describe_place(body, g["place"], 16, set())):
+                    out.append("%s=%s" % (val, d))
+    return out
+
+
+Body.guard_strings = lambda self, bb: guard_strings(self, bb)
